@@ -47,7 +47,7 @@ CFG = {
     "exe": "geomv_c14",
     "go_cmd": "c14",
     "stages": ["go:gen", "go:impl", "lean:judge"],
-    "theorems": [T + n for n in ["C14_glue", "C14_trivial", "C14_empty_iff", "oracle_midpoints_inside", "oracle_endpoints_on_L", "oracle_subintervals_cover"]],
+    "theorems": [T + n for n in ["C14_glue", "C14_trivial", "C14_exact", "C14_vertices", "C14_empty_iff", "oracle_midpoints_inside", "oracle_endpoints_on_L", "oracle_subintervals_cover"]],
     "level": "proof",
     "trusted_base": [
         "Lean 4.33.0 kernel; axioms of every theorem printed by #print axioms must be within {propext, Classical.choice, Quot.sound}",
